@@ -1,13 +1,11 @@
-(* TEMPORARY copy of Properties/C13_actions.v.txt made by the builder so that ./check C13 runs; the coordinator replaces it *)
-(* C13 — no event content can crash or corrupt an action plugin: the ACTION-PLUGIN part.
-   DRAFT for the coordinator (not compiled under this name): paste into Properties/C13.v next to the
-   processor-level theorems. Only statements, each closed by [exact]; the models are in
-   Model/Actions/*.v, the proofs in Proofs/Actions/*.v.
-   "Never panics" is [<> Panic p] in the result monad of Base/GoSem.v: every Go index / slice
-   expression of the modelled code is an [idx] / [slice] that yields Panic when out of range, and a
-   loop that would not finish within its fuel yields Panic too (so fuel sufficiency is proved).
-   "Leaves the event well formed" is [wf_json]: every number node carries a JSON number (all other
-   node kinds are escaped / framed by the encoder, so any byte content is representable). *)
+(* C13 — no event content can crash or corrupt an action plugin.
+   Part 1 (action plugins): the hand-written index arithmetic of modify / parse_re2 / json_extract / hash /
+   convert_utf8_bytes / split is modelled in the result monad of Base/GoSem.v and proved total and
+   tree-well-formedness preserving; mask, keep_fields / remove_fields, join / join_template / k8s multiline,
+   decode and throttle are covered by C17, C18, C15, C12 and C16; the remaining plugins are exercised only by the
+   generic differential harness (listed in the evidence).
+   Part 2 (processor): a time-out event is only ever handed to an action that holds an event (module
+   C13_proc at the end; model coq/Model/Proc.v, replayed on every real pipeline trace). Statements only. *)
 From Verif Require Import Base.Sx Base.GoSem Base.Json Model.Decoders.Common
   Model.Actions.Tree Model.Actions.Subst Model.Actions.ConvertUtf8 Model.Actions.HashNorm Model.Actions.Plugins
   Model.Actions.Entry.
@@ -177,3 +175,37 @@ Example c13_tree_nonvacuous :
     = Ok (JObj [(bs "message", JStr (bs "abc")); (bs "a", JObj [(bs "hash", JNum (bs "18446744073709551615"))])])
   /\ wf_json (JObj [(bs "n", JNum (bs "-1.5e+3"))]) = true /\ wf_json (JNum (bs "01")) = false /\ wf_json (JNum (bs ".5")) = false.
 Proof. repeat split; vm_compute; reflexivity. Qed.
+
+(* ---- processor: the stream time-out reaches only the action that holds a run ------------------------ *)
+Module C13_proc.
+From Verif Require Model.Proc Proofs.Proc Proofs.ProcTheorems.
+Import Verif.Model.Proc Verif.Proofs.Proc Verif.Proofs.ProcTheorems.
+
+(* the processEvent loop gives a time-out event to the first action that holds an event, and none is held left of it *)
+Theorem c13_timeout_only_to_holder :
+  forall s e start s', pstep s (PTake e start) = Some s' -> pkind e = 3 ->
+    held_at (held s) start <> None /\ (forall j y, In (j, y) (held s) -> start <= j).
+Proof. exact proc_timeout_only_to_holder. Qed.
+Print Assumptions c13_timeout_only_to_holder.
+
+(* and the first Do it enters is that (busy) action's *)
+Theorem c13_timeout_first_do_is_the_holders :
+  forall s e start s1 e' a busy s2, pstep s (PTake e start) = Some s1 -> pkind e = 3 ->
+    pstep s1 (PDo e' a busy) = Some s2 -> e' = e /\ a = start /\ busy = true.
+Proof. exact proc_timeout_first_do_busy. Qed.
+Print Assumptions c13_timeout_first_do_is_the_holders.
+
+(* the time-outs Spawn sends to busy actions: likewise *)
+Theorem c13_spawn_timeout_only_to_holder :
+  forall s e idx s', pstep s (PPush e idx) = Some s' -> pkind e = 3 ->
+    held_at (held s) idx <> None /\ (forall j y, In (j, y) (held s) -> idx <= j).
+Proof. exact proc_spawn_timeout_only_to_holder. Qed.
+Print Assumptions c13_spawn_timeout_only_to_holder.
+
+(* full-strength reading "EVERY Do of a time-out is at a busy action" is false of the model (and of the code):
+   once the holder has flushed, the time-out event itself may pass on to the next, idle action *)
+Theorem c13_timeout_every_do_busy_refuted :
+  exists n ls s e a s', prun (pinit n) ls = Some s /\ pkind e = 3 /\ pstep s (PDo e a false) = Some s'.
+Proof. exact proc_timeout_every_do_busy_refuted. Qed.
+Print Assumptions c13_timeout_every_do_busy_refuted.
+End C13_proc.
